@@ -517,16 +517,21 @@ impl MDL {
 
                 for k in 0..vertex_count {
                     for element in &declaration.elements {
+                        // 64-bit so that offsets from the file cannot overflow; only three
+                        // vertex streams exist
                         cursor
                             .seek(SeekFrom::Start(
-                                (model.lods[i as usize].vertex_data_offset
-                                    + model.meshes[j as usize].vertex_buffer_offsets
-                                        [element.stream as usize]
-                                    + element.offset as u32
-                                    + model.meshes[j as usize].vertex_buffer_strides
-                                        [element.stream as usize]
-                                        as u32
-                                        * k as u32) as u64,
+                                model.lods[i as usize].vertex_data_offset as u64
+                                    + *model.meshes[j as usize]
+                                        .vertex_buffer_offsets
+                                        .get(element.stream as usize)?
+                                        as u64
+                                    + element.offset as u64
+                                    + *model.meshes[j as usize]
+                                        .vertex_buffer_strides
+                                        .get(element.stream as usize)?
+                                        as u64
+                                        * k as u64,
                             ))
                             .ok()?;
 
@@ -689,9 +694,8 @@ impl MDL {
 
                 cursor
                     .seek(SeekFrom::Start(
-                        (model_file_header.index_offsets[i as usize]
-                            + (model.meshes[j as usize].start_index * size_of::<u16>() as u32))
-                            as u64,
+                        model_file_header.index_offsets[i as usize] as u64
+                            + model.meshes[j as usize].start_index as u64 * size_of::<u16>() as u64,
                     ))
                     .ok()?;
 
@@ -776,17 +780,16 @@ impl MDL {
                 let mesh = &model.meshes[j as usize];
                 for stream in 0..mesh.vertex_stream_count {
                     let mut vertex_data = vec![];
-                    let stride = mesh.vertex_buffer_strides[stream as usize];
+                    let stride = *mesh.vertex_buffer_strides.get(stream as usize)?;
                     for z in 0..mesh.vertex_count {
                         // TODO: read the entire vertex data into a buffer
                         // Handle the offsets within Novus itself
                         cursor
                             .seek(SeekFrom::Start(
-                                (model.lods[i as usize].vertex_data_offset
+                                model.lods[i as usize].vertex_data_offset as u64
                                     + model.meshes[j as usize].vertex_buffer_offsets
-                                        [stream as usize]
-                                    + (z as u32 * stride as u32))
-                                    as u64,
+                                        [stream as usize] as u64
+                                    + (z as u64 * stride as u64),
                             ))
                             .ok()?;
 
